@@ -631,6 +631,29 @@ pub fn apply_block_level_edit(block: &mut Block, e: &str, creator: &Key, _w: &Le
             block.generate_pre_hash();
             block.sign(&creator.private);
         }
+        "atr_redirect" => {
+            // the first rebroadcast pays a key that never owned the output; root and signature are redone by the creator
+            let mut done = false;
+            for t in block.transactions.iter_mut() {
+                if t.transaction_type != TransactionType::ATR {
+                    continue;
+                }
+                if let Some(o) = t.to.iter_mut().find(|s| s.amount > 0 && s.slip_type != SlipType::Bound) {
+                    let other = if o.public_key == _w.keys["k1"].public { _w.keys["k2"].public } else { _w.keys["k1"].public };
+                    o.public_key = other;
+                    done = true;
+                }
+                if done {
+                    t.generate_hash_for_signature();
+                    break;
+                }
+            }
+            if done {
+                block.merkle_root = block.generate_merkle_root(false, false);
+                block.generate_pre_hash();
+                block.sign(&creator.private);
+            }
+        }
         "bump_timestamp_nosign" => {
             block.timestamp += 1;
         }
